@@ -40,6 +40,10 @@ pub enum Action {
     SetJoinRule(u8),
     /// ordinary state: (type selector, state key selector, value)
     SetState(u8, u8, u8),
+    /// set an entry of the `events` / `notifications` map: (map selector, key selector, level selector)
+    SetMapEntry(u8, u8, u8),
+    /// send power levels without the `events` / `notifications` / `users` map
+    DropMap(u8),
 }
 
 #[derive(Serialize, Deserialize, Debug, Clone, PartialEq)]
@@ -105,11 +109,22 @@ impl Room {
         id
     }
 
-    /// Whether `e` is allowed against `state` (ruma's auth_check as the authorization sub-routine).
+    /// Whether `e` is allowed against `state`: the reference authorization rules (`refauth`, the
+    /// model C08 compares ruma with) decide; only where the specification leaves the verdict open
+    /// does ruma's own auth_check stand in.
     fn allowed(&self, e: &Ev, state: &SMap) -> bool {
-        let rules = rules_for(self.version).authorization;
         let Ok(pdu) = Pdu::from_ev(e) else { return false };
-        auth_check(&rules, &*pdu, |ty, key| state.get(&(ty.to_string(), key.to_owned())).and_then(|id| self.pdus.get(eid(id)).cloned())).is_ok()
+        self.authorised(e, &pdu, state)
+    }
+
+    fn authorised(&self, e: &Ev, pdu: &PduRef, state: &BTreeMap<Key, String>) -> bool {
+        let ref_state: crate::ev::RefState = state.iter().filter_map(|(k, id)| self.events.get(id).map(|x| (k.clone(), x.clone()))).collect();
+        let d = crate::refauth::ref_auth(self.version, e, &ref_state);
+        if !d.silent {
+            return d.accept;
+        }
+        let rules = rules_for(self.version).authorization;
+        auth_check(&rules, &**pdu, |ty, key| state.get(&(ty.to_string(), key.to_owned())).and_then(|id| self.pdus.get(eid(id)).cloned())).is_ok()
     }
 
     fn make_event(&mut self, state: &SMap, prev: Vec<String>, ty: &str, key: Option<&str>, sender: &str, content: Value, ts: u64, salt: u8) -> Ev {
@@ -221,6 +236,22 @@ impl Room {
                         Action::SetField(f, l) => {
                             let mut c = cur_pl.clone();
                             c[FIELDS[*f as usize % FIELDS.len()]] = json!(LEVELS[*l as usize % LEVELS.len()]);
+                            ("m.room.power_levels", Some(String::new()), c)
+                        }
+                        Action::SetMapEntry(m, k, l) => {
+                            let mut c = cur_pl.clone();
+                            let (m, key) = if m % 2 == 0 { ("events", ["m.room.topic", "m.room.name", "m.room.power_levels", "m.room.member", "m.room.join_rules"][*k as usize % 5]) } else { ("notifications", "room") };
+                            if !c[m].is_object() {
+                                c[m] = json!({});
+                            }
+                            c[m][key] = json!(LEVELS[*l as usize % LEVELS.len()]);
+                            ("m.room.power_levels", Some(String::new()), c)
+                        }
+                        Action::DropMap(m) => {
+                            let mut c = cur_pl.clone();
+                            if let Some(o) = c.as_object_mut() {
+                                o.remove(["events", "notifications", "users"][*m as usize % 3]);
+                            }
                             ("m.room.power_levels", Some(String::new()), c)
                         }
                         Action::SetJoinRule(j) => ("m.room.join_rules", Some(String::new()), json!({"join_rule": JOIN_RULES[*j as usize % JOIN_RULES.len()]})),
@@ -448,7 +479,6 @@ pub fn ref_resolve_variant(r: &Room, sets: &[SMap], conflate_no_ancestor: bool) 
 }
 
 fn iterative_auth(r: &Room, order: &[String], partial: &mut SMap, trace: &mut RefTrace) {
-    let rules = rules_for(r.version).authorization;
     for id in order {
         let e = &r.events[id];
         let Some(key) = e.key() else { continue };
@@ -467,7 +497,7 @@ fn iterative_auth(r: &Room, order: &[String], partial: &mut SMap, trace: &mut Re
             }
         }
         let pdu = &r.pdus[eid(id)];
-        let ok = auth_check(&rules, &**pdu, |ty, k| auth_state.get(&(ty.to_string(), k.to_owned())).and_then(|i| r.pdus.get(eid(i)).cloned())).is_ok();
+        let ok = r.authorised(e, pdu, &auth_state);
         if ok {
             partial.insert(key, id.clone());
         } else {
@@ -552,6 +582,8 @@ pub fn action() -> impl Strategy<Value = Action> {
         1 => (0u8..5).prop_map(Action::Unban),
         5 => (0u8..5, 0u8..5).prop_map(|(t, l)| Action::SetUserLevel(t, l)),
         3 => (0u8..7, 0u8..5).prop_map(|(f, l)| Action::SetField(f, l)),
+        2 => (0u8..2, 0u8..5, 0u8..5).prop_map(|(m, k, l)| Action::SetMapEntry(m, k, l)),
+        1 => (0u8..3).prop_map(Action::DropMap),
         2 => (0u8..4).prop_map(Action::SetJoinRule),
         6 => (0u8..3, 0u8..2, 0u8..4).prop_map(|(t, k, v)| Action::SetState(t, k, v)),
     ]
